@@ -96,6 +96,20 @@ pub fn run_input(input: &Value) -> Case {
         "json_de" => {
             let b = hex::decode(input["j"].as_str().unwrap()).unwrap();
             let r = serde_json::from_slice::<Version>(&b).ok().map(comps);
+            // the same text through the other routes serde_json offers (a reader, a parsed Value) and, for a plain quoted
+            // string, with its first character written as a \u escape: "JSON (de)serialisation uses exactly that string"
+            // whichever way the string reaches the visitor (borrowed, copied, owned)
+            let r2 = serde_json::from_reader::<_, Version>(&b[..]).ok().map(comps);
+            let r3 = serde_json::from_slice::<Value>(&b).ok().and_then(|v| serde_json::from_value::<Version>(v).ok()).map(comps);
+            let mut routes = vec![("from_reader", r2), ("from_value", r3)];
+            if b.len() >= 3 && b[0] == b'"' && b[b.len() - 1] == b'"' && !b[1..b.len() - 1].iter().any(|c| *c == b'"' || *c == b'\\' || *c < 32 || *c >= 128) {
+                let mut e = format!("\"\\u{:04x}", b[1]).into_bytes();
+                e.extend_from_slice(&b[2..]);
+                routes.push(("escaped", serde_json::from_slice::<Version>(&e).ok().map(comps)));
+            }
+            for (name, x) in routes {
+                if x != r { panic!("deserialisation of {} differs by route: from_slice {:?}, {} {:?}", String::from_utf8_lossy(&b), r, name, x); }
+            }
             out["impl"] = json!(r.map(|a| a.to_vec()));
             out["text"] = json!(String::from_utf8_lossy(&b));
             (
